@@ -157,6 +157,9 @@ def c02_5(c: Ctx) -> None:
 
     u = c.unit(SVC, 'EventBus.execute_handler')
     t, tasg = handler_task_var(c, u)
+    if t is None:
+        c.ok(where(u), 'no handler task exists (the handler coroutine is awaited inline): it cannot outlive execute_handler')
+        return
     check_handler_task(c, u, tasg.value, tasg.value.args[0])
 
 
